@@ -735,6 +735,21 @@ func TestC10(t *testing.T) {
 			break
 		}
 	}
+	// an acknowledgement that commits while the stream is inside the Send of that message: the stream must
+	// notice (its flow-control slot is free, an ordered successor became deliverable) without any timer
+	if len(st.Violations) == 0 {
+		for _, cs := range c11AckInSendCases() {
+			r := c11Run(t, Seed(), cs, map[string]bool{"stall-head-of-line": true})
+			st.Count("ack_in_send_cases", 1)
+			if r.violation != "" && (r.sig == "stall" || r.sig == "stall-head-of-line") {
+				p := ReplayPath(fmt.Sprintf("C10-ack-in-send-%s-%d.json", cs.Name, Seed()))
+				b, _ := json.MarshalIndent(c11Replay{Property: "C10", Sig: "lost-wakeup-ack-in-send", Seed: Seed(), Case: cs, What: r.violation}, "", " ")
+				os.WriteFile(p, b, 0o644)
+				st.Violate(Violation{What: fmt.Sprintf("[lost-wakeup-ack-in-send] case %s (the client acknowledges a message while the server is inside its Send; no timer may be needed): %s", cs.Name, r.violation), Replay: p, FoundInput: true, Sig: "lost-wakeup-ack-in-send"})
+				break
+			}
+		}
+	}
 	// the wake set of every operation of random histories vs the store model (the `covers` side of the
 	// protocol theorem: who is woken by what)
 	if len(st.Violations) == 0 {
